@@ -7,12 +7,30 @@ sys.path.insert(0, str(HERE))
 ROOT = HERE.parent
 props = [json.loads(l) for l in (ROOT / 'properties.jsonl').read_text().splitlines() if l.strip()]
 checks = []; na = []
+
+def level_text(m):
+    doc = ' '.join((m.__doc__ or '').split())
+    ths = [t.split('.')[-1] for t in getattr(m, 'THEOREMS', [])]
+    txt = (f"Machine-checked proof: {len(ths)} Lean 4 theorems ({', '.join(ths[:12])}{', …' if len(ths) > 12 else ''}) about a model of the anchored code, "
+           f"quantified over all inputs / sizes / histories, kernel-checked on every run against definitions regenerated from /repo's sources where a translator exists, "
+           f"axioms audited (⊆ propext, Classical.choice, Quot.sound). The model is tied to the implementation by a correspondence check (same inputs through the native Lean driver "
+           f"and the real code), and the property itself is decided on the implementation's outputs by the Spec oracle, which supplies the concrete replay when something breaks. ")
+    return getattr(m, 'LEVEL_TEXT', txt + doc[:900])
+
+def level_note(m):
+    parts = list(getattr(m, 'ASSUMPTIONS', []))
+    op = getattr(m, 'OPEN_STATEMENTS', [])
+    if op:
+        parts.append('planned statements not yet proved (covered per instance by the oracle only): ' + '; '.join(op))
+    return ' | '.join(parts) or 'see DESIGN.md §7'
+
 for p in props:
     pid = p['id']
     f = HERE / 'props' / f'{pid.lower()}.py'
     pending = (HERE / 'pending.txt').read_text().split() if (HERE / 'pending.txt').exists() else []
     if not f.exists() or pid in pending:
-        na.append(dict(property_id=pid, reason='check not built yet in this round (planned in DESIGN.md §5); nothing is claimed for it'))
+        na.append(dict(property_id=pid, reason=('check temporarily withdrawn while its Lean model follows a repair (fix: commit) of /repo; nothing is claimed for it until model, theorems and correspondence are re-established'
+                                                 if f.exists() else 'check not built; nothing is claimed for it')))
         continue
     m = importlib.import_module(f'props.{pid.lower()}')
     checks.append(dict(
@@ -23,9 +41,9 @@ for p in props:
         replay_cmd_template='bin/check --replay {path}',
         engine='lean-cc',
         level_claimed=dict(category=getattr(m, 'LEVEL', 'proof'),
-                           text=getattr(m, 'LEVEL_TEXT', (m.__doc__ or '').strip().split('\n\n')[0]),
-                           design_ref=f'DESIGN.md §5 {pid}'),
-        level_note='; '.join(getattr(m, 'ASSUMPTIONS', [])) or 'see DESIGN.md §7',
+                           text=level_text(m),
+                           design_ref=f'DESIGN.md §5 {pid}, §10'),
+        level_note=level_note(m),
         technique=getattr(m, 'TECHNIQUE', 'Lean 4 theorems over a model of the code (kernel-checked, axioms audited) + translator-regenerated definitions + model/implementation correspondence check + spec oracle on the implementation'),
     ))
 man = dict(
